@@ -58,6 +58,11 @@ def pinref(w, r):
 
 
 def _coll(items, as_set):
+    """The argument of a bulk call: a list, a set (PRNG-hashed iteration order), or a one-shot iterator/generator."""
+    if as_set == "iter":
+        return iter(list(items))
+    if as_set == "gen":
+        return (x for x in list(items))
     return set(items) if as_set else list(items)
 
 
